@@ -306,7 +306,7 @@ impl Property for C14 {
         ]
     }
     fn expected_probes(&self) -> Vec<&'static str> {
-        vec!["sna_loaded", "szx_loaded", "szx_compressed_page", "szx_unknown_chunk", "dirty_receiver", "ay_twin_compared", "halted_flag", "eilast_flag", "encodings_compared", "mismatch_rejected", "scr_loaded", "presence_checked", "locked_file", "display_checked", "display_other_bank_checked", "same_file_loaded_twice", "receiver_with_ay_disabled", "szx_frame_position_above_65535"]
+        vec!["sna_loaded", "szx_loaded", "szx_compressed_page", "szx_unknown_chunk", "dirty_receiver", "ay_twin_compared", "halted_flag", "eilast_flag", "encodings_compared", "mismatch_rejected", "scr_loaded", "presence_checked", "locked_file", "display_checked", "display_other_bank_checked", "same_file_loaded_twice", "receiver_with_ay_disabled", "szx_frame_position_above_65535", "szx_big_unknown_chunk", "szx_zlib_stream_of_page_size"]
     }
 
     fn gen(&self, rng: &mut Rng, _tier: Tier, idx: u64) -> Scenario {
@@ -350,6 +350,7 @@ impl Property for C14 {
             with_mouse: r.bool(),
             fe_low: if r.bool() { Some(r.u8() & 7) } else { None },
             fe_hi: 0,
+            ..Default::default()
         };
         let encode = |s: &SnapState, fmt: usize, opt: &SzxOptions| -> Vec<u8> {
             if fmt == 0 {
@@ -409,6 +410,33 @@ impl Property for C14 {
                     h.u8(opt.compress.iter().any(|c| *c) as u8);
                     h.u8((opt.order_seed != 0) as u8);
                     h.u8(opt.with_ay as u8 | (opt.with_keyb as u8) << 1 | (opt.with_mouse as u8) << 2);
+                }
+                let mut opt = opt;
+                if fmt == 1 {
+                    // an embedded tape / disk image chunk far bigger than any chunk rustzx makes use of
+                    if (sc.get("seed") >> 19) & 7 == 0 {
+                        opt.big_unknown = *orng.pick(&[65536usize, 65539, 65540, 70000, 131072, 200000]);
+                        ctx.probe("szx_big_unknown_chunk");
+                    }
+                    // a page whose zlib stream has a "special" length (that of a stored page, +-1, ...): the page is
+                    // incompressible except for its tail
+                    if (sc.get("seed") >> 22) & 7 == 0 {
+                        let pages: Vec<usize> = if m128 { (0..8).collect() } else { vec![5, 2, 0] };
+                        // (not bank 2: the program of the state lives there)
+                        let mut idx = orng.below(pages.len() as u64) as usize;
+                        if pages[idx] == 2 {
+                            idx = 0;
+                        }
+                        let target = *orng.pick(&[16384usize, 16384, 16383, 16385, 16381, 16387, 16390]);
+                        let bank = &mut s.banks[pages[idx]];
+                        for (i, b) in bank.iter_mut().enumerate() {
+                            *b = if i < target - 100 { orng.u8() } else { 0 };
+                        }
+                        if crate::snapfmt::zlib_exact(&s.banks[pages[idx]], target).is_some() {
+                            opt.zlib_exact = Some((idx, target));
+                            ctx.probe("szx_zlib_stream_of_page_size");
+                        }
+                    }
                 }
                 let bytes = encode(&s, fmt, &opt);
                 let dname = DIRT[dirt];
